@@ -10,9 +10,12 @@ ASSUMPTIONS = [
  "T0 part: native words extracted verbatim by encoders/t0tool.py (E2; re-validated against the real interpreter by C05 e2-validation-*)",
  "the T0 programs read their input only through read8-native (pem), read8-low and read-blob-inner (decoders): checked on the bytecode by C05's layer 2 (no other native touches hbuf/hlen); the lemmas are per word, the T0-level loops around them (read8-nc, read-blob: `co` while no data) are not executed",
  "chunk length N concrete per query (4..6), content, split point, element length and callback switches symbolic; destination of read-blob-inner = pad+1",
+ "hsio queries: br_multihash_update is a recording stub at the link seam; room/data and requested length concrete per query (0, 3, 5, 8 / 5), bytes and record types symbolic",
  "x509_minimal: br_multihash_update (link seam) and dn_hash_impl->update are recording stubs; x509_decoder: append_dn/append_in recording stubs",
 ]
 MUTANTS = [
+ "CAUGHT seeded/C01d-ssl-hs-server (write8-native hashes the byte even when the output buffer is full, so it is hashed again on the retry): t0-hsio-hss-write8-H0",
+ "CAUGHT seeded/C07d-ssl-hs-server (read-chunk-native hashes `len` bytes from the destination instead of `clen` bytes of input): t0-hsio-hss-readchunk-H3-L5",
  "CAUGHT seeded/C07-pemdec-cr-at-chunk-end (read8-native delivers a CR that ends a chunk): t0-pem-read8-split-N4, t0-pem-read8-split-N6 (CR never delivered / same values in both schedules)",
  "CAUGHT pkey_decoder.c read-blob-inner pushes len instead of len - clen: t0-pkey-read-blob-split",
  "CAUGHT skey_decoder.c read8-low does not decrement hlen: t0-skey-read8-low",
@@ -38,4 +41,19 @@ def queries():
         qs.append(Q("t0-%s-read-blob-split" % key, "C07_t0_resume.c", units=[], defs=["-DC07_KEY_%s=1" % key, "-DMODE=2", "-DN=5"] + inc,
                     unwind=9, timeout=120,
                     desc="%s read-blob-inner: chunk (b,5) vs (b,k)+(b+k,5-k) for every k, element length 0..7: same final operands, destination bytes, cursor and callback byte stream" % t0tool.PROGRAMS[key]))
+    qs += hsio_queries()
+    return qs
+
+
+def hsio_queries():
+    """handshake byte I/O natives of the TLS client / server programs (main session)"""
+    qs = []
+    for side, key in ((0, "hsc"), (1, "hss")):
+        p = t0tool.load(key)
+        inc = ["-I" + t0tool.gen_dir(p), "-I" + os.path.join(ROOT, "encoders")]
+        for (w, nm, hl, ln) in ((1, "write8", 3, 0), (1, "write8", 0, 0), (2, "read8", 3, 0), (2, "read8", 0, 0),
+                                (3, "readchunk", 3, 5), (3, "readchunk", 8, 5), (3, "readchunk", 0, 5), (3, "readchunk", 5, 5)):
+            qs.append(Q("t0-hsio-%s-%s-H%d%s" % (key, nm, hl, ("-L%d" % ln) if ln else ""), "C07_t0_hsio.c", units=[],
+                        defs=["-DSIDE=%d" % side, "-DWHICH=%d" % w, "-DHL=%d" % hl, "-DLEN=%d" % (ln or 5), "-DT0N_NO_RUN=1"] + inc, unwind=12, timeout=120,
+                        desc="%s %s-native with %d byte(s) of room/data%s: no progress => no side effect and nothing hashed; progress => exactly the bytes that crossed are copied, consumed and (handshake records only) hashed once, in order" % (t0tool.PROGRAMS[key], nm, hl, (", %d requested" % ln) if ln else "")))
     return qs
